@@ -142,7 +142,7 @@ func contract_MarshalOptions_marshalMessage(o MarshalOptions, b []byte, m protor
 
 // flags copies the two user options into the internal flag word and sets nothing else.
 //
-// @ props C16
+// @ props C16 C05
 // @ mode int
 func contract_MarshalOptions_flags(o MarshalOptions) (f protoiface.MarshalInputFlags) {
 	ensures(iff(f&protoiface.MarshalUseCachedSize != 0, o.UseCachedSize))
@@ -150,10 +150,12 @@ func contract_MarshalOptions_flags(o MarshalOptions) (f protoiface.MarshalInputF
 	return
 }
 
-// @ props C10 C16
+// @ props C10 C16 C05
 // @ mode int
 // @ nopanic
 // @ guard-errors
+// @ callsite methods.Marshal: iff(arg[protoiface.MarshalInput](0).Flags&protoiface.MarshalDeterministic != 0, o.Deterministic)
+// @ callsite o.marshalMessageSlow: recv[MarshalOptions]().Deterministic == old(o.Deterministic)
 func contract_MarshalOptions_marshal(o MarshalOptions, b []byte, m protoreflect.Message) (out protoiface.MarshalOutput, err error) {
 	domain(!o.UseCachedSize) // callers setting the deprecated option take over the obligation themselves
 	modifiesAll()
